@@ -28,6 +28,15 @@ type cmpEval struct {
 }
 
 func (e *cmpEval) elem(x ast.Expr) (absDecl, bool) {
+	// a comparator that receives the elements themselves (slices.SortFunc, slices.CompactFunc)
+	if id := identOf(x); id != nil {
+		switch e.info.Uses[id] {
+		case e.pi:
+			return e.a, true
+		case e.pj:
+			return e.b, true
+		}
+	}
 	ix, ok := ast.Unparen(x).(*ast.IndexExpr)
 	if !ok || es(ix.X) != e.slice {
 		return absDecl{}, false
@@ -68,6 +77,12 @@ func (e *cmpEval) eval(x ast.Expr) absVal {
 			o := e.eval(v.X)
 			return absVal{kind: "bool", b: !o.b}
 		}
+		if v.Op == token.SUB {
+			o := e.eval(v.X)
+			if o.kind == "int" {
+				return absVal{kind: "int", r: -o.r}
+			}
+		}
 		e.err = "operator " + v.Op.String()
 	case *ast.BinaryExpr:
 		l, r := e.eval(v.X), e.eval(v.Y)
@@ -85,7 +100,7 @@ func (e *cmpEval) eval(x ast.Expr) absVal {
 			return absVal{}
 		}
 		var c int
-		if l.kind == "rank" {
+		if l.kind == "rank" || l.kind == "int" {
 			c = l.r - r.r
 		} else {
 			bi := func(b bool) int {
@@ -120,16 +135,20 @@ func (e *cmpEval) eval(x ast.Expr) absVal {
 		}
 		e.err = "identifier " + v.Name
 	case *ast.CallExpr:
-		if fullName(calleeOf(e.info, v)) == "strings.Compare" && len(v.Args) == 2 {
+		if f := fullName(calleeOf(e.info, v)); (f == "strings.Compare" || f == "cmp.Compare") && len(v.Args) == 2 {
 			l, r := e.eval(v.Args[0]), e.eval(v.Args[1])
-			return absVal{kind: "rank", r: sign(l.r-r.r) + 1}
+			if l.kind != "rank" || r.kind != "rank" {
+				e.err = "Compare of something other than the IDs"
+				return absVal{}
+			}
+			return absVal{kind: "int", r: sign(l.r - r.r)}
 		}
 		e.err = "call " + es(v.Fun)
 	case *ast.BasicLit:
 		if v.Kind == token.INT {
 			var n int
 			fmt.Sscanf(v.Value, "%d", &n)
-			return absVal{kind: "rank", r: n + 1} // pairs with strings.Compare()+1
+			return absVal{kind: "int", r: n}
 		}
 		e.err = "literal " + v.Value
 	default:
@@ -148,37 +167,70 @@ func sign(x int) int {
 	return 0
 }
 
-// run evaluates the comparator body: `if c {return e}`* `return e`
+// run evaluates the comparator body (if / else / nested returns) and gives its boolean result; a three-way comparator
+// (int result, slices.SortFunc) is "less" when the result is negative.
 func (e *cmpEval) run(body *ast.BlockStmt) bool {
-	for _, st := range body.List {
+	v, ok := e.block(body.List)
+	if !ok {
+		if e.err == "" {
+			e.err = "comparator falls off its end"
+		}
+		return false
+	}
+	if v.kind == "int" {
+		return v.r < 0
+	}
+	return v.b
+}
+
+// value is run for a comparator whose raw result is needed (equality callbacks of CompactFunc).
+func (e *cmpEval) value(body *ast.BlockStmt) (absVal, bool) { return e.block(body.List) }
+
+func (e *cmpEval) block(list []ast.Stmt) (absVal, bool) {
+	for _, st := range list {
 		switch s := st.(type) {
 		case *ast.ReturnStmt:
 			if len(s.Results) != 1 {
 				e.err = "return arity"
-				return false
+				return absVal{}, false
 			}
-			return e.eval(s.Results[0]).b
+			v := e.eval(s.Results[0])
+			return v, e.err == ""
+		case *ast.BlockStmt:
+			if v, ok := e.block(s.List); ok || e.err != "" {
+				return v, ok
+			}
 		case *ast.IfStmt:
-			if s.Init != nil || s.Else != nil {
-				e.err = "if with init/else in comparator"
-				return false
+			if s.Init != nil {
+				e.err = "if with init in comparator"
+				return absVal{}, false
 			}
-			if e.eval(s.Cond).b {
-				if e.err != "" {
-					return false
+			c := e.eval(s.Cond)
+			if e.err != "" {
+				return absVal{}, false
+			}
+			if c.b {
+				if v, ok := e.block(s.Body.List); ok || e.err != "" {
+					return v, ok
 				}
-				return e.run(s.Body)
+			} else if s.Else != nil {
+				var next []ast.Stmt
+				switch el := s.Else.(type) {
+				case *ast.BlockStmt:
+					next = el.List
+				case *ast.IfStmt:
+					next = []ast.Stmt{el}
+				}
+				if v, ok := e.block(next); ok || e.err != "" {
+					return v, ok
+				}
 			}
 		default:
 			e.err = fmt.Sprintf("statement %T in comparator", st)
-			return false
-		}
-		if e.err != "" {
-			return false
+			return absVal{}, false
 		}
 	}
-	e.err = "comparator falls off its end"
-	return false
+	return absVal{}, false
 }
 
 var absDomain = func() []absDecl {
@@ -265,6 +317,11 @@ func checkC19(w *World, r *Result) {
 
 	// ---- pipeline stages, in statement order: sorts, optional filtering dedupe, emission
 	var passes []sortPass
+	type compactStep struct {
+		call  *ast.CallExpr
+		after int // number of sorting passes that precede it
+	}
+	var compacts []compactStep
 	var loop *ast.RangeStmt
 	reassigned := false
 	cur := slice
@@ -363,9 +420,6 @@ func checkC19(w *World, r *Result) {
 				if fl == nil {
 					Undecided("comparator of %s is neither a function literal nor a local bound once to one", full)
 				}
-				if strings.HasPrefix(full, "slices.") {
-					Undecided("slices.SortFunc comparators (three-way) are not modelled")
-				}
 				t, err := comparatorTable(info, cur, fl)
 				if err != "" {
 					Undecided("comparator at %s cannot be evaluated over the ordering domain: %s", w.Pos(call.Pos()), err)
@@ -405,6 +459,21 @@ func checkC19(w *World, r *Result) {
 			}
 			Undecided("loop over %s at %s neither emits nor filters by ID (shape not recognised)", cur, w.Pos(s.Pos()))
 		case *ast.AssignStmt:
+			// `decls = slices.Compact(decls)` / `slices.CompactFunc(decls, eq)`: removal of ADJACENT equal elements
+			if len(s.Lhs) == 1 && len(s.Rhs) == 1 && es(s.Lhs[0]) == cur {
+				if call, ok := s.Rhs[0].(*ast.CallExpr); ok && len(call.Args) >= 1 && es(call.Args[0]) == cur {
+					switch fullName(calleeOf(info, call)) {
+					case "slices.Compact":
+						r.bad("PTH-C19a", name, "duplicates removed by slices.Compact", w.Pos(call.Pos()), "slices.Compact compares whole declarations (ID, content and priority): two declarations that share an ID but differ elsewhere are both kept and both written, so an ID is emitted more than once")
+						deduped, dedupPos = true, s
+						continue
+					case "slices.CompactFunc":
+						compacts = append(compacts, compactStep{call: call, after: len(passes)})
+						deduped, dedupPos = true, s
+						continue
+					}
+				}
+			}
 			for _, l := range s.Lhs {
 				if es(l) == slice && s.Tok != token.DEFINE {
 					reassigned = true
@@ -477,6 +546,63 @@ func checkC19(w *World, r *Result) {
 	r.cond(mismatch == "", "ORD-5", name, "composition of the passes = priority first, then increasing ID", w.Pos(passes[0].call.Pos()),
 		"the lexicographic composition of the passes agrees with the contract on every pair of the domain", "the sorting passes do not realise 'priority first, then increasing ID': "+mismatch)
 
+	// ---- deduplication by removal of adjacent equals: the callback must be "same ID", and the order established by
+	// the passes that precede it must keep equal IDs next to each other (no element of another ID strictly between two
+	// elements of one ID, whatever their priorities)
+	for _, cs := range compacts {
+		cpos := w.Pos(cs.call.Pos())
+		fl := comparatorLit(info, fi, cs.call.Args[1])
+		if fl == nil {
+			Undecided("equality callback of slices.CompactFunc at %s is neither a function literal nor a local bound once to one", cpos)
+		}
+		var params []types.Object
+		for _, f := range fl.Type.Params.List {
+			for _, nm := range f.Names {
+				params = append(params, info.Defs[nm])
+			}
+		}
+		if len(params) != 2 {
+			Undecided("equality callback of slices.CompactFunc at %s does not take two elements", cpos)
+		}
+		eqBad := ""
+		for _, a := range absDomain {
+			for _, b := range absDomain {
+				e := &cmpEval{info: info, slice: cur, pi: params[0], pj: params[1], a: a, b: b}
+				v, ok := e.value(fl.Body)
+				if !ok || e.err != "" {
+					Undecided("equality callback of slices.CompactFunc at %s cannot be evaluated: %s", cpos, e.err)
+				}
+				if v.b != (a.id == b.id) {
+					eqBad = fmt.Sprintf("it answers %v for (ID rank %d, priority %v) and (ID rank %d, priority %v)", v.b, a.id, a.prio, b.id, b.prio)
+				}
+			}
+		}
+		r.cond(eqBad == "", "PTH-C19a", name, "slices.CompactFunc merges exactly the declarations of one ID", cpos, "the callback is true exactly for equal IDs", "the equality callback of slices.CompactFunc is not 'same ID' ("+eqBad+"): declarations with different IDs are merged, or equal IDs kept")
+		// adjacency under the order of the preceding passes
+		prefix := passes[:cs.after]
+		before := func(a, b absDecl) bool {
+			for i := len(prefix) - 1; i >= 0; i-- {
+				if prefix[i].table[[2]absDecl{a, b}] {
+					return true
+				}
+				if prefix[i].table[[2]absDecl{b, a}] {
+					return false
+				}
+			}
+			return false
+		}
+		apart := ""
+		for _, a := range absDomain {
+			for _, b := range absDomain {
+				for _, c := range absDomain {
+					if a.id == c.id && b.id != a.id && a != c && before(a, b) && before(b, c) {
+						apart = fmt.Sprintf("(ID rank %d, priority %v) < (ID rank %d, priority %v) < (ID rank %d, priority %v)", a.id, a.prio, b.id, b.prio, c.id, c.prio)
+					}
+				}
+			}
+		}
+		r.cond(apart == "" && len(prefix) > 0, "PTH-C19a", name, "equal IDs are adjacent when slices.CompactFunc runs", cpos, "under the order of the preceding passes no other ID sits between two declarations of one ID", "slices.CompactFunc only removes ADJACENT duplicates, but after the preceding passes two declarations of one ID can be separated ("+apart+": a priority and a non-priority copy of the same ID): both are written")
+	}
 	// ---- emission loop
 	checkEmission(w, r, fi, loop, cur, deduped)
 }
